@@ -475,6 +475,11 @@ def run_special(tier, r):
         ("optional-select", C.Struct("o" / C.Optional(C.Const(b"\x01")), "s" / C.Select(C.Const(b"\x02"), C.Byte), "t" / C.Terminated), [b"\x01\x02", b"\x02", b"\x05", b"\x01\x05\x00"], []),
         ("aligned-expr", C.Struct("m" / C.Byte, "v" / C.Aligned(this.m + 2, C.Int16ub), "t" / C.Byte), [b"\x00\x01\x02\x09", b"\x02\x01\x02\x00\x00\x09"], []),
         ("checksum-free pointer", C.Struct("o" / C.Byte, "p" / C.Pointer(this.o, C.Byte), "q" / C.Pointer(-1, C.Byte), "t" / C.Tell), [b"\x02\x07\x08", b"\x00"], []),
+        # data taken from elsewhere than the stream: a constant, and a context expression (this.d)
+        ("restreamdata-bytes", C.Struct("r" / C.RestreamData(b"\x01\x02", C.Int16ub), "t" / C.Byte), [b"\x05", b""], [dict(r=None, t=5), dict(t=0)]),
+        ("restreamdata-this", C.Struct("d" / C.Bytes(2), "r" / C.RestreamData(this.d, C.Struct("a" / C.Byte, "b" / C.Byte)), "t" / C.Byte), [b"\x01\x02\x05", b"\xff\x00\x00", b"\x01"],
+         [dict(d=b"ab", r=None, t=5), dict(d=b"ab", t=0)]),
+        ("restreamdata-nested", C.Struct("d" / C.Bytes(3), "s" / C.Struct("r" / C.RestreamData(this._.d, C.GreedyRange(C.Byte)), "n" / C.Computed(C.len_(this.r))), "t" / C.Byte), [b"\x01\x02\x03\x05"], []),
     ]
     for name, d, datas, values in shapes:
         dc, err = try_compile(d)
